@@ -726,6 +726,7 @@ func (cs *ContractSet) ParseContractText(pkgPath, file, text string) error {
 					return errf(fmt.Errorf("bad at clause (want: at call NAME#k assert expr)"))
 				}
 				site := fs[1]
+				before := len(fs) > 2 && fs[2] == "before"
 				i := strings.Index(rc.rest, "assert")
 				if i < 0 {
 					return errf(fmt.Errorf("at clause without assert"))
@@ -735,7 +736,11 @@ func (cs *ContractSet) ParseContractText(pkgPath, file, text string) error {
 				if err != nil {
 					return errf(err)
 				}
-				cur.AtCalls = append(cur.AtCalls, &Clause{Kind: "assert", Tag: tag, Props: props, Src: body, Expr: e, Site: site, File: file, Line: rc.line})
+				kind := "assert"
+				if before {
+					kind = "assert-before"
+				}
+				cur.AtCalls = append(cur.AtCalls, &Clause{Kind: kind, Tag: tag, Props: props, Src: body, Expr: e, Site: site, File: file, Line: rc.line})
 			case "loop":
 				// loop N invariant|decreases [tags] expr
 				fs := strings.Fields(rc.rest)
